@@ -379,6 +379,35 @@ def _standin_b(ctx, py):
     bounded = max(out) <= 0.02
     ctx.standin("C12.b.rt.bounded_disagreement", desc + " Required: never above 2 % of the reported sd at any scale.",
                 3, [] if bounded else [dict(normalised_disagreement=out)])
+    # the same relation on a schedule where TWO distinct epochs (a position fix, then a velocity fix) fall inside one IMU interval
+    # -- the path of the feedback loop that handles a second epoch before the next increment is applied
+    t1 = time.time()
+    dt_imu = float(np.median(np.diff(traj.index)))
+    base = np.asarray(traj.index[5:-5:10], dtype=float)
+    tp, tv = base + 0.3 * dt_imu, base + 0.7 * dt_imu
+    rs = py.transform.resample_state(traj, np.sort(np.hstack([tp, tv])))
+    pos2, vel2 = rs.loc[tp, ["lat", "lon", "alt"]], rs.loc[tv, ["VN", "VE", "VD"]]
+    out2 = []
+    for scale in (1.0, 0.1):
+        gp = IS.Parameters(bias=np.array([2e-5, -1e-5, 1.5e-5]) * scale)
+        ap = IS.Parameters(bias=np.array([0.02, -0.01, 0.015]) * scale)
+        inc = py.strapdown.compute_increments_from_imu(IS.apply_imu_parameters(imu, "rate", gp, ap), "rate")
+        pva0 = S.perturb_pva(traj.iloc[0], base_err * scale)
+        gm, am = IS.EstimationModel(bias_sd=3e-5 * scale), IS.EstimationModel(bias_sd=0.03 * scale)
+        sds = (5.0 * scale, 0.2 * scale, 0.1 * scale, 0.4 * scale)
+        meas = [M.Position(pos2, 1.0 * scale), M.NedVelocity(vel2, 0.1 * scale)]
+        fb = F.run_feedback_filter(pva0, *sds, inc, gm, am, measurements=meas, time_step=1.0)
+        tc = py.strapdown.Integrator(pva0).integrate(inc)
+        ff = F.run_feedforward_filter(tc, tc, *sds, gm, am, measurements=meas, time_step=1.0)
+        common = ff.trajectory.index.intersection(fb.trajectory_sd.index)
+        d = py.transform.compute_state_difference(fb.trajectory.loc[common], ff.trajectory.loc[common])
+        norm = (d.abs() / fb.trajectory_sd.loc[common].values).iloc[3:]
+        out2.append(float(norm.max().max()))
+    ok2 = max(out2) <= 0.3
+    ctx.standin("C12.b.rt.two_epochs_in_one_interval",
+                "the same 30 s scenario with a position fix at 0.3 and a velocity fix at 0.7 of one IMU interval (every 10th interval), error scales {1, 0.1}: max disagreement "
+                "feedback vs feedforward in units of the reported sd is %s. Required: never above 0.3 sd. Clause (b) is not decided by this technique." % ["%.3g" % x for x in out2],
+                2, [] if ok2 else [dict(normalised_disagreement=out2, schedule="position at t_k + 0.3 dt, NED velocity at t_k + 0.7 dt")], time_s=time.time() - t1)
 
 
 def replay(obligation, cex):
